@@ -65,6 +65,15 @@ impl Elem for i32 {
         json!(self)
     }
 }
+// floats travel as their bit patterns
+impl Elem for f32 {
+    fn from_j(v: &Value) -> Self {
+        j2f(v)
+    }
+    fn to_j(&self) -> Value {
+        f2j(*self)
+    }
+}
 impl Elem for Item {
     fn from_j(v: &Value) -> Self {
         j2item(v)
@@ -646,6 +655,8 @@ pub fn run_api_case(case: &Value, out: &mut dyn Write) {
         "stack" => {
             if case["elem"].as_str() == Some("item") {
                 run_stack::<Item>(case, out)
+            } else if case["elem"].as_str() == Some("float") {
+                run_stack::<f32>(case, out)
             } else {
                 run_stack::<i32>(case, out)
             }
